@@ -280,9 +280,13 @@ def run(ctx):
         names = rng.sample(sorted(PLACEMENTS), rng.randrange(2, 5))
         a = PLACEMENTS[names[0]][0]
         bs = []
+        same_name = rng.random() < 0.4          # equally named files in different folders (paramDict of case a, of case b ..)
         for j, nm in enumerate(names):
             b = PLACEMENTS[nm][1]
-            bs.append(os.path.join(os.path.dirname(b), f"inc{j}_" + os.path.basename(b)))
+            cand = os.path.join(os.path.dirname(b), "paramDict" if same_name else f"inc{j}_" + os.path.basename(b))
+            if cand in bs or os.path.normpath(cand) == os.path.normpath(a):
+                cand = os.path.join(os.path.dirname(b), f"inc{j}_" + os.path.basename(b))
+            bs.append(cand)
         how = [rng.choice(["load", "read"]) for _ in range(1 + len(bs))]
         c = {"kind": "multi-include", "a": a, "bs": bs, "how": how}
         r = oracle(c)
